@@ -22,7 +22,7 @@ import circuitgraph as cg  # noqa: E402
 
 assert os.path.realpath(cg.__file__).startswith(os.path.realpath(REPO)), cg.__file__
 
-DRIVER = os.path.join(VERIF, "lean", ".lake", "build", "bin", "driver")
+DRIVER = os.environ.get("CG_DRIVER") or os.path.join(VERIF, "lean", ".lake", "build", "bin", "driver")
 
 
 # ----------------------------------------------------------------------------- ordered sets
